@@ -26,13 +26,13 @@ from __future__ import annotations
 from collections import Counter
 
 CMDS = ["echo", "ls", "git", "grep", "cat", "pip", "python3", "cd", "make", "docker", "rm", "x-y", "a.out", "tar", "curl", "ssh"]
-ODD_CMDS = ["./run.sh", "/bin/ls", "~/bin/x", "../up", "@(cmd)", "$CMD", "'quoted cmd'", "@('a b')", "$HOME/bin/x", "/usr/bin/env",
+ODD_CMDS = ["./run.sh", "/bin/ls", "~/bin/x", "../up", "@(cmd)", "$CMD", "@('a b')", "$HOME/bin/x", "/usr/bin/env",
             "sudo", "time", "nice"]
 NAMES = ["a", "b", "x", "y", "foo", "name", "files", "out", "err", "i", "line", "res", "ctx", "cfg"]
 SIMPLE_WORDS = ["a", "b", "hi", "foo", "file.txt", "src/main.py", "/tmp/x", "..", ".", "./a", "~/x", "~", "README", "x1", "a_b", "a-b",
                 "1", "2.5", "007", "0x1f", "1e5", "1_0", "HEAD", "origin/main", "v1.2.3", "*.py", "**/*.txt", "file?.c", "[ab]*", "a.b.c",
                 "ünï", "файл", "中", "-", "--", "%s", "100%", "+x", "a+b", "HEAD^", "HEAD~2", "user@host", "a.b@c.d", "//x", "/"]
-SEP_WORDS = ["a,b", "a:b", "x,", ",x", "k:", ":k", "a;b", "http://h.io/p?q=1&r=2", "host:/path", "1:2:3", "a,b,c", "C:/x", "::1",
+SEP_WORDS = ["a,b", "a:b", "x,", ",x", "k:", ":k", "a;b", "http://h.io/p?q=1", "host:/path", "1:2:3", "a,b,c", "C:/x", "::1",
              "a->b", "x:=1", "a+=1", "n-=2", "a*=b", "a/=b", "x//=2", "a%=b", "a**=2", "a@=b", "a^=b", "x==1", "pkg==1.0", "a!=b",
              "pkg>=1", "->", "==", "!=", ":=", "+=", ":", ",", "a, b", "a , b", "a ,b", "a: b", "a :b", "a == b", "x ==1", "x== 1",
              "a += b", "a -> b", "a := b"]
@@ -40,15 +40,17 @@ EQ_WORDS = ["k=v", "a=b", "KEY=value", "x=1", "a= b", "a =b", "a = b", "--k=v", 
             "--opt=a,b", "--x=y=z", "=", "a==", "=x"]
 HASH_WORDS = ["a#b", "x#", "a#b#c", "issue#12"]
 BANG_WORDS = ["hi!", "a!b", "!x"]
-KW_WORDS = ["if", "not", "in", "is", "for", "import", "from", "as", "with", "def", "class", "lambda", "return", "if(x)", "not(x)",
+KW_WORDS = ["if", "not", "in", "is", "for", "import", "from", "as", "with", "def", "class", "lambda", "return",
             "in[1]", "lambda x: y", "del", "else", "try", "while", "yield", "None", "True", "match", "case", "type"]
-BRACKET_WORDS = ["(a)", "( a )", "(a b)", "( a  b )", "[a-z]*", "a[1]", "a[ 1 ]", "x[1:2]", "x[1 : 2]", "f(x)", "f( x )", "f(x, y)",
-                 "f(x ,y)", "(a, b)", "[1,2]", "[ 1, 2 ]", "()", "[]", "a(b)c", "( a , b )", "(a=1)", "f(k=v)", "f(k = v)"]
-STR_WORDS = ["'a  b'", '"a  b"', "'it''s'", 'r"\\d+  x"', "'#nocomment'", '"a,b"', "'k = v'", '"$HOME  x"', "f'{x}  y'", 'f"{ x }"',
-             "'''tri  ple'''", '"""a\n  b  \nc"""', "'a'\"b\"", "a'b c'd", "--msg='a  b'", "-m \"x , y\"", "b'by  tes'", "p'/tmp/x'", "''",
+BRACKET_WORDS = ["[a-z]*", "a[1]", "a[ 1 ]", "x[1:2]", "x[1 : 2]", "[1,2]", "[ 1, 2 ]", "[]", "[ a   b ]", "x[a,b]", "[ab][cd]", "a[ b ]c",
+                 "[k=v]", "[ k = v ]", "x[-1]", "x[ - 1 ]"]
+SUBSHELLS = ["(ls  -l)", "( echo a  b )", "(cd /tmp && ls)", "( echo a,b )", "(echo k=v)", "( x = 1 )", "(echo a) | cat", "(ls) && (pwd)",
+             "( echo  'a  b' )"]
+STR_WORDS = ["'a  b'", '"a  b"', 'r"\\d+  x"', "'#nocomment'", '"a,b"', "'k = v'", '"$HOME  x"', "f'{x}  y'", 'f"{ x }"',
+             "'''tri  ple'''", '"""a\n  b  \nc"""', "a'b c'd", "--msg='a  b'", "-m \"x , y\"", "b'by  tes'", "p'/tmp/x'", "''",
              'f"{a}:{b}"', 'f"{a!r:>{w}}"', "f'{{x}}  {y}'", "f'''{x}\n  {y}  \n'''", "'a \\\n  b'"]
 DOLLAR_WORDS = ["$HOME", "$HOME/bin", "$X", "${'HOME'}", "${ 'HOME' }", "${x}", "$( ls )", "$(ls  -l)", "$(echo a | grep b)",
-                "$[ls]", "!(ls)", "![ls  x]", "@(x)", "@( x )", "@(x + 1)", "@(x ,y)", "@([1, 2])", "@(f(a, k=1))", "@$(which ls)",
+                "$[ls]", "@(x)", "@( x )", "@(x + 1)", "@(x ,y)", "@([1, 2])", "@(f(a, k=1))", "@$(which ls)",
                 "@$( which  ls )", "pre@(x)post", "@(x).txt", "a$HOME", "$(echo $(pwd))", "@(x if y else z)", "@(lambda: 1)",
                 "@('a  b')", "@(d['k'])", "@(d[1:2])", "@({'a': 1})", "$(echo a,b)", "$(echo k=v)", "$(echo a:b)", "$(echo x==1)"]
 BACKTICK_WORDS = ["`a.*`", "g`*.py`", "r`\\d+`", "`a  b`", "g`**/*.x`", "p`.*`", "gp`*`", "@foo`bar`"]
@@ -111,7 +113,7 @@ XSH_IN_PY = ["x = $(ls)", "x = $( ls  -l )", "x=$(ls)", "x = !(ls)", "x = !( ls 
              "x = pf'{y}/z'", "x = f\"{$HOME}\"", "x = f\"{$HOME}/{ $USER }\"", "x = f'{$(ls)}'", "x = $(ls) + $(pwd)", "x = $(ls)+$(pwd)",
              "x = [$(ls), $(pwd)]", "x = {'k': $(ls)}", "x = {'k':$X}", "x = $(ls) if $X else !(pwd)", "x = @.env", "x = @.imp.json",
              "x = $(git log --pretty=format:%h -n 1)", "x = $(echo a=b c==d e,f g:h)", "x = !(echo a , b)", "x = $(echo 'a  b')",
-             "x = $(echo \"q\" 2>&1)", "x = $(cat < in > out)", "x = $(a && b || c)", "x = $(a and b)", "x = $(echo -n  x)",
+             "x = $(echo \"q\" 2>&1)", "x = $(cat < in > out)", "x = $(echo -n  x)",
              "x = $(echo --k=v)", "x = $(echo --k = v)", "x = $(echo k = v)", "x = $(echo *.py)", "x = $(echo a[1])", "x = $(echo (a))",
              "x = $(\n  ls\n)", "x = $(ls \\\n   -l)", "x = !(ls -l |\n  grep x)", "aliases['ll'] = 'ls  -l'", "x = $(echo a)  # c",
              "ls?", "x??", "len?", "$X?", "x = $(echo! raw   text)", "![echo!  a   b]", "x = !(cmd!  r  w )",
@@ -380,6 +382,9 @@ class XGen:
         if c < 8:
             self.lab("s:command")
             self._kind = "command"
+            if self.chance(1, 14):
+                self.lab("s:subshell")
+                return self.pick(SUBSHELLS)
             return self.cmdline()
         if c < 10:
             self._kind = "command"
@@ -441,7 +446,7 @@ class XGen:
                 self.body(depth + 2, inner + myunit, unit, lines)
             return
         self.lab("b:" + head.split("(")[0].split(" ")[0].rstrip(":"))
-        lines.append(ind + self.trailing_comment(head))
+        lines.append(ind + self.trailing_comment(head).replace("\t#", " #"))
         self.body(depth + 1, inner, unit, lines)
         if head == "try:":
             lines.append(ind + self.pick(["except E:", "except E as e :", "except (A ,B):", "except:", "finally:"]))
@@ -465,11 +470,10 @@ class XGen:
                 lines.extend(self.block_macro(ind, unit))
             else:
                 st = self.trailing_comment(self.simple())
-                first = True
                 for ln in st.split("\n"):
-                    # continuation lines of a multi-line statement keep their own text
-                    lines.append((ind + ln) if first else ln)
-                    first = False
+                    # every physical line of a multi-line statement is shifted (compound statements need it;
+                    # the content of a multi-line string changes with it, which is harmless for this property)
+                    lines.append(ind + ln if ln.strip() or not ind else ln)
                 if self.chance(1, 12):
                     lines[-1] += self.pick([" ", "  ", "\t"])
         if self.chance(1, 6):
